@@ -285,6 +285,8 @@ def in_known_class(case):
     fw, expected = LAST.get("fw"), LAST.get("expected")
     if fw is None or case["dialect"] not in ("marlin", "marlin_nospace"):
         return False
+    if LAST.get("status") == "budget":
+        return False     # the finding ends the job early; a sender that never ends is another defect
     if fw.wire_errors or len(fw.resend_requests) < 2:
         return False
     acc = list(fw.accepted_job)
@@ -327,7 +329,7 @@ def judge(case, result, cl, label=""):
 
 def _judge(case, result, cl):
     fw, expected, status, printing_after, errors = result
-    LAST["fw"], LAST["expected"] = fw, expected
+    LAST["fw"], LAST["expected"], LAST["status"] = fw, expected, status
     case = getattr(fw, "case_view", case)
     if getattr(fw, "appended", False):
         cl.add("commands_appended_with_send_while_printing")
@@ -342,6 +344,25 @@ def _judge(case, result, cl):
     job_desc = f"job={render_job(case['job'])!r} corrupt={sorted(case['corrupt'])} " \
                f"lat={case['lat']} dialect={case['dialect']}"
     if status == "budget":
+        # A time budget alone decides nothing.  What does decide is an oracle
+        # over the history: once the last corrupted transmission is behind, a
+        # resend request must be answered with the requested line, which the
+        # firmware then accepts - so a long run of numbered transmissions none
+        # of which is accepted is a sender that never restarts from the
+        # requested line (livelock), however long one waits.
+        last_bad = max([t[0] for t in fw.transmissions if t[3]], default=-1)
+        tail = [t for t in fw.transmissions if t[0] > last_bad]
+        run = 0
+        for t in reversed(tail):
+            if t[5] == "ok":
+                break
+            run += 1
+        if run >= LIVELOCK_RUN:
+            raise Violation(f"livelock: the last {run} numbered transmissions (all after the last "
+                            f"corrupted one, #{last_bad}) were refused by the firmware - resend "
+                            f"requests {fw.resend_requests[-3:]!r} are not answered with the requested "
+                            f"line; last received {fw.rx[-4:]!r}; accepted {len(fw.accepted_job)} of "
+                            f"{len(expected)} lines; {job_desc}")
         return "inconclusive"
     # ---- wire format ------------------------------------------------------
     if fw.wire_errors:
@@ -489,6 +510,11 @@ def _sliced_gets_appends(c):
 
 
 FIXED_JOB = [{"k": "cmd", "cmd": i, "a": i, "b": i + 1} for i in range(6)]
+LIVELOCK_RUN = 60
+# a priority command queued while job line 0 is corrupted twice in a row: the
+# extra "ok" after Marlin's resend request lets it out between the two resends
+PRIO_PLACEMENTS = [((0, 1), [3]), ((0, 1), [2, 0, 5]), ((0, 1, 2), [3]), ((1, 2), [3]),
+                   ((0, 1), [1]), ((2, 3), [2, 0, 5])]
 
 
 def run_shard(ctx):
@@ -518,25 +544,29 @@ def run_shard(ctx):
     else:
         combos += [(i, i + 1) for i in range(maxtx - 1)]
     k = 0
-    for dialect in ("marlin", "teacup"):
-        for c in combos:
-            for lat in ([0], [2, 0, 5]):
-                k += 1
-                if k % ctx.nshards != ctx.shard:
-                    continue
-                case = {"job": FIXED_JOB, "corrupt": list(c), "lat": lat, "dialect": dialect,
-                        "greeting": "start"}
-                cl = set()
-                try:
-                    r = check(case, cl)
-                except Violation as v:
-                    if in_known_class(case):
-                        ctx.excluded(KNOWN_ID)
-                        continue
-                    ctx.violation(case, str(v), "fault_placement")
-                    continue
-                if r == "inconclusive":
-                    ctx.inconclusive += 1
-                    continue
-                ctx.case(case, nontrivial="NT" in cl,
-                         classes=["fault_placement"] + sorted(cl), steps=6)
+    placements = [(d, c, lat, None) for d in ("marlin", "teacup") for c in combos
+                  for lat in ([0], [2, 0, 5])]
+    placements += [("marlin", c, lat, prio) for (c, lat) in PRIO_PLACEMENTS
+                   for prio in (["M105"], ["M105", "M114"])]
+    for (dialect, c, lat, prio) in placements:
+        k += 1
+        if k % ctx.nshards != ctx.shard:
+            continue
+        case = {"job": FIXED_JOB, "corrupt": list(c), "lat": lat, "dialect": dialect,
+                "greeting": "start"}
+        if prio:
+            case["prio"] = prio
+        cl = set()
+        try:
+            r = check(case, cl)
+        except Violation as v:
+            if in_known_class(case):
+                ctx.excluded(KNOWN_ID)
+                continue
+            ctx.violation(case, str(v), "fault_placement")
+            continue
+        if r == "inconclusive":
+            ctx.inconclusive += 1
+            continue
+        ctx.case(case, nontrivial="NT" in cl,
+                 classes=["fault_placement"] + sorted(cl), steps=6)
